@@ -176,6 +176,7 @@ JsonMutations ==
    "shape:rows+1", "shape:rows-1", "shape:cols+1", "shape:cols-1",
    "coord:row_out", "coord:col_out", "coord:negative", "coord:index_text", "coord:value_text", "coord:malformed",
    "coord:col_index_float", "coord:row_index_float", "coord:col_index_text",
+   "coord:row_index_bool", "coord:col_index_bool", "coord:value_bool",
    "ids:dup_row", "ids:dup_col", "ids:blank_row", "ids:blank_col", "ids:del_row_id", "ids:del_col_md",
    "md:row_text", "md:col_list", "md:row_number",
    "type:matrix_dense", "type:element_int", "type:element_unicode", "type:element_bogus",
